@@ -492,6 +492,65 @@ def r10_any_guard_only_on_request(ctx):
            'MethodGuard built for `allow(any_method)` and allow_non_standard_methods = %s (documented: %s)' % (got, want))
 
 
+def r11_common_ancestor_covers_every_scope(ctx):
+    ctx.rule('C07.R11', 'P1 must-pass-through: the root fallback of a (per-domain) router is looked up from `ScopeGraph::find_common_ancestor` of the '
+             'scopes of its routes, so the answer must be an ancestor of ALL of them. In that function a scope is finished with only once the '
+             'candidate covers it: from the "no path from the candidate to this scope" edge of the reachability test, every path to the '
+             'acquisition of the next scope (`pop` / `next` on the list of scopes) passes through the test again for the same scope, i.e. '
+             'through a re-queue of that scope (`push` of the value that was popped) or through the "covered" edge. A loop that widens the '
+             'candidate once and moves on returns a scope that is too deep, and an unmatched request is answered by a nested sibling\'s fallback.')
+    b = None
+    for x in ctx.fb.bodies('pavexc'):
+        if not x.is_promoted and x.nid == x.nroot and x.nid.endswith('scope_graph::ScopeGraph::find_common_ancestor'):
+            b = x
+    if not ctx.need('C07.R11', 'ScopeGraph::find_common_ancestor', b):
+        return
+    from ..inline import inlined
+    b = inlined(ctx.fb, b)
+    defs = Defs(b)
+    tests = [(bb, t) for bb, t in b.calls() if (callee(t) or '').split('::')[-1] in ('has_path_connecting', 'is_descendant_of', 'is_ancestor_of')]
+    acq = [(bb, t) for bb, t in b.calls() if (callee(t) or '').split('::')[-1] in ('pop', 'pop_front', 'pop_back', 'next') and t.get('aty') and 'ScopeId' in t['aty'][0]]
+    if not ctx.need('C07.R11', 'reachability test in find_common_ancestor', tests) or not ctx.need('C07.R11', 'acquisition of the next scope in find_common_ancestor', acq):
+        return
+    acq_bbs = {bb for bb, _ in acq}
+    n = 0
+    for hb, ht in tests:
+        # the switch on the result of the test
+        sw = None
+        d = ht['dest']['l']
+        derived = forward_derived(b, {d}, defs, through_calls=True)
+        for sb in sorted(b.reachable(ht['target'] if 'target' in ht else b.succ(hb)[0])) if False else sorted(b.live_blocks()):
+            t = b.term(sb)
+            if t and t['k'] == 'switch' and op_place(t['d']) is not None and op_place(t['d'])['l'] in derived and b.dominates(hb, sb):
+                sw = sb
+                break
+        if sw is None:
+            ctx.ob('C07.R11', 'scope-stays-until-covered|#%d' % (n + 1), False, b.loc(hb, ht), 'the result of the reachability test is not branched on in a recognisable way')
+            continue
+        n += 1
+        # which successor is "covered"? the one that can reach an acquisition without any further call that changes the candidate;
+        # decided structurally: the uncovered successor is the one from which the climbing call (neighbors_directed / parent lookup) is reachable before any acquisition
+        succs = b.succ(sw)
+        climbs = {bb for bb, t in b.calls() if (callee(t) or '').split('::')[-1] in ('neighbors_directed', 'direct_parent_ids', 'parent', 'parents', 'neighbors')}
+        unc = [s for s in succs if climbs & b.reachable(s, avoid=acq_bbs | {hb})]
+        cov = [s for s in succs if s not in unc]
+        if len(unc) != 1 or not cov:
+            ctx.ob('C07.R11', 'scope-stays-until-covered|#%d' % n, False, b.loc(sw), 'cannot tell the covered edge from the uncovered one (%d/%d)' % (len(cov), len(unc)))
+            continue
+        pushes = set()
+        for bb, t in b.calls():
+            if (callee(t) or '').split('::')[-1] in ('push', 'push_back', 'push_front', 'insert') and t.get('aty') and 'ScopeId' in t['aty'][0]:
+                val = op_place(t['args'][-1])
+                if val is not None:
+                    sl, _ = backward_slice(b, val['l'], defs, through_calls=False)
+                    if any(node.get('k') == 'call' and id(node) in {id(a[1]) for a in acq} for _, _, node in sl):
+                        pushes.add(bb)
+        escaped = b.reachable(unc[0], avoid=pushes | {hb}) & acq_bbs
+        ctx.ob('C07.R11', 'scope-stays-until-covered|#%d' % n, not escaped, b.loc(sorted(escaped)[0]) if escaped else b.loc(sw),
+               'from the uncovered edge every path to the next scope re-queues this scope or re-tests it: %s (re-queue sites: %d)' % (not escaped, len(pushes)))
+    ctx.floor('C07.R11', 'reachability tests in find_common_ancestor', n, 1)
+
+
 def check(ctx):
     r1_detectors_gate(ctx)
     r2_nesting(ctx)
@@ -503,3 +562,4 @@ def check(ctx):
     r8_allow_list_reaches_the_fallback(ctx)
     r9_innermost_fallback_on_method_mismatch(ctx)
     r10_any_guard_only_on_request(ctx)
+    r11_common_ancestor_covers_every_scope(ctx)
